@@ -69,20 +69,24 @@ async fn get_epoch(net: &Net) -> i64 {
     }
 }
 
-/// which routing content is installed: 1 (node A executes), 2 (node B), 0 (no cluster)
+static PROBE_SEQ: std::sync::atomic::AtomicU64 = std::sync::atomic::AtomicU64::new(0);
+
+/// which routing content is installed: 1 (node A executes), 2 (node B), 0 (no cluster / the probe failed).
+/// Every probe uses its own key and only the stand-in event carrying that key counts: a probe of an earlier call that timed out
+/// on a busy machine and reaches its node late cannot be mistaken for this one (seen once as a false alarm in a thorough run).
 async fn route_content(net: &Net) -> i64 {
+    let key = format!("probe{}", PROBE_SEQ.fetch_add(1, std::sync::atomic::Ordering::SeqCst));
     net.take_log();
-    let r = net.proxy_exec(PROXY, vec![b"GET".to_vec(), b"probe".to_vec()]).await;
+    let r = net.proxy_exec(PROXY, vec![b"GET".to_vec(), key.clone().into_bytes()]).await;
     let mut c = 0;
     for e in net.take_log() {
-        if e["kind"] == "redis" && e["cmd"][0] == "GET" {
+        if e["kind"] == "redis" && e["cmd"][0] == "GET" && e["cmd"][1] == key.as_str() {
             c = if e["node"] == NODE_A { 1 } else if e["node"] == NODE_B { 2 } else { 9 };
         }
     }
     if let Resp::Error(_) = r {
-        if c == 0 {
-            return 0;
-        }
+        // no reply from a node: whatever the log says is not an observation of the routing table
+        return 0;
     }
     c
 }
